@@ -2,8 +2,7 @@
      udp_encode mx    = encode_udp_packet (udp_client.rs, mx = its MAX_UDP_PACKET_SIZE) and
                         encode_udp_packet_simple (udp_proxy.rs, mx = its MAX_UDP_PACKET_SIZE)
      udp_read1_prog   = read_udp_packet of both files (textually the same function)
-     udp_loop         = the `loop { read_udp_packet ... if payload.is_empty() break }` of
-                        stream_to_udp in both files: an empty packet ends the direction
+     udp_loop         = the `loop { read_udp_packet ... }` of stream_to_udp in both files
      udp_loop_rd      = the same loop over the per-stream reader (any chunking)
    The initial request (target of the association) is in Dest.v. *)
 From AnyTLS Require Export Bytes Reader ReaderProg Generated Dest.
@@ -27,10 +26,17 @@ Definition udp_read1 (mx : N) (b : bytes) : pres bytes := run_bytes (udp_read1_p
 (* how a direction ends *)
 Inductive uend : Type :=
 | UMore (rest : bytes)      (* waiting for more bytes; `rest` is the undecoded tail *)
-| UStop (rest : bytes)      (* an empty packet ended the loop *)
+| UStop (rest : bytes)      (* an empty packet ended the loop (only when stop = true: the pinned behaviour) *)
 | UErr (e : N).
 
-Fixpoint udp_loop (fuel : nat) (mx : N) (b : bytes) : list bytes * uend :=
+(* stop = "an empty datagram ends the direction": regenerated from the two stream_to_udp loops
+   (Generated.udp_empty_datagram_ends_{client,server}); false on the repaired tree, where a
+   zero-length datagram is forwarded like any other *)
+Definition udp_stop (client_side : bool) : bool :=
+  if client_side then udp_empty_datagram_ends_client else udp_empty_datagram_ends_server.
+Definition udp_max (client_side : bool) : N := if client_side then udp_max_client else udp_max_server.
+
+Fixpoint udp_loop (fuel : nat) (stop : bool) (mx : N) (b : bytes) : list bytes * uend :=
   match fuel with
   | O => ([], UMore b)
   | S k =>
@@ -38,28 +44,37 @@ Fixpoint udp_loop (fuel : nat) (mx : N) (b : bytes) : list bytes * uend :=
       | NeedMore => ([], UMore b)
       | Reject e => ([], UErr e)
       | Accept d r =>
-          if is_nil d then ([], UStop r)
-          else let '(ds, e) := udp_loop k mx r in (d :: ds, e)
+          if stop && is_nil d then ([], UStop r)
+          else let '(ds, e) := udp_loop k stop mx r in (d :: ds, e)
       end
   end.
 
-Definition udp_decode_all (mx : N) (b : bytes) : list bytes * uend :=
-  udp_loop (S (length b)) mx b.
+Definition udp_decode_all (stop : bool) (mx : N) (b : bytes) : list bytes * uend :=
+  udp_loop (S (length b)) stop mx b.
 
 (* the same loop over the reader: datagrams delivered, and how it ended
-   (SPending = blocked waiting for more, SFail E_EOF = stream closed, SDone tt = empty packet) *)
-Fixpoint udp_loop_rd (fuel : nat) (mx : N) (st : rd) : rd * list bytes * sres unit :=
+   (SPending = blocked waiting for more, SFail E_EOF = stream closed, SDone tt = stopped by an empty packet) *)
+Fixpoint udp_loop_rd (fuel : nat) (stop : bool) (mx : N) (st : rd) : rd * list bytes * sres unit :=
   match fuel with
   | O => (st, [], SPending)
   | S k =>
       match run_rd (udp_read1_prog mx) st with
       | (st', SDone d) =>
-          if is_nil d then (st', [], SDone tt)
-          else let '(st'', ds, e) := udp_loop_rd k mx st' in (st'', d :: ds, e)
+          if stop && is_nil d then (st', [], SDone tt)
+          else let '(st'', ds, e) := udp_loop_rd k stop mx st' in (st'', d :: ds, e)
       | (st', SFail e) => (st', [], SFail e)
       | (st', SPending) => (st', [], SPending)
       end
   end.
 
-Definition udp_stream_rd (mx : N) (chunks : list bytes) (closed : bool) : list bytes * sres unit :=
-  let '(_, ds, e) := udp_loop_rd (S (length (concat chunks))) mx (rd_of_chunks chunks closed) in (ds, e).
+Definition udp_stream_rd (stop : bool) (mx : N) (chunks : list bytes) (closed : bool) : list bytes * sres unit :=
+  let '(_, ds, e) := udp_loop_rd (S (length (concat chunks))) stop mx (rd_of_chunks chunks closed) in (ds, e).
+
+(* the server-side socket of an association: bound in the family of the target iff the code says so
+   (Generated.udp_server_bind_follows_target), else always IPv4; an AF_INET socket cannot send to an
+   IPv6 target (EAFNOSUPPORT) *)
+Inductive fam_t := F4 | F6.
+Definition fam_of (d : dest) : fam_t := match d with DV6 _ => F6 | _ => F4 end.
+Definition udp_bind_fam (target : fam_t) : fam_t := if udp_server_bind_follows_target then target else F4.
+Definition udp_can_send (sock target : fam_t) : bool :=
+  match sock, target with F4, F4 | F6, F6 => true | _, _ => false end.
